@@ -21,7 +21,15 @@ RULE = ("generated signatures (positional-only, positional-or-keyword, *args, ke
         "include_result=False, default action_type module.qualname, __name__/__doc__/signature preserved. Options are also passed positionally; bodies may return while an action they entered through a plain generator is still current; a fifth of "
         "the calls happen while the caller handles another exception; include_args may name self. One call in five is made inside an action started with a logger object of its own: the "
         "call's action still reaches the registered destinations. non-trivial = signature with a "
-        "special name, a non-plain parameter kind or an invalid argument list; distinct by (signature, options, argument-list shape)")
+        "special name, a non-plain parameter kind or an invalid argument list; distinct by (signature, options, argument-list shape). "
+        "Part 'layers' (one case in forty): a plain function under a stack of 1-4 decorations, each either log_call with options of its own "
+        "or an ordinary functools.wraps decorator (retry on the body's error / pass-through timing) whose entries and exits the harness "
+        "records; every log_call decoration - also one applied to a log_call-decorated function or to a plain wrapper around one - must "
+        "log its own action (own action_type / include_args over the parameters of the callable it was given / include_result) around "
+        "each entry of what it decorates, nested in decoration order, and the outcome object must pass through unchanged. Between "
+        "decorating and calling, the default logger may be replaced (eliot.testing.swap_logger with a MemoryLogger or a minimal "
+        "ILogger, or a unittest method under @capture_logging, optionally inside a start_action of the test): the call's actions must "
+        "arrive, complete and in order, at the default logger in force when the call is made and nowhere else")
 ASSUMPTIONS = ["argument values are JSON-native so that tape copies compare by equality"]
 BATCH = 250
 
@@ -531,6 +539,303 @@ def one(seed, i, res, tape):
         res["violations"].append({"msg": "[%s] %s" % (clause, text), "mech": mech,
                                   "detail": {"case": i, "signature": render_params(sig), "flavour": flavour, "options": opts, "clause": clause, "key": key}})
 
+# ---------------------------------------------------------------------------------------------------------------------------
+# part 'layers': stacks of decorations over one plain function; default logger replaced between decorating and calling
+
+
+class _ListLogger(object):
+    """A minimal ILogger of the harness."""
+
+    def __init__(self):
+        self.messages = []
+
+    def write(self, dictionary, serializer=None):
+        self.messages.append(dictionary)
+
+
+class _Truth(object):
+    """What the harness's own code (function body, plain wrappers) saw: ("enter", layer, binding) / ("exit", layer, kind, object)."""
+
+    def __init__(self):
+        self.events = []
+        self.script = ["return"]
+        self.attempt = 0
+
+    def reset(self, script):
+        self.events = []
+        self.script = script
+        self.attempt = 0
+
+    def hook(self, loc):
+        self.events.append(("enter", 0, loc))
+        plan = self.script[min(self.attempt, len(self.script) - 1)]
+        self.attempt += 1
+        exc = None
+        if plan == "raise":
+            exc = excs.UserError("body failure %d" % self.attempt)
+        elif plan == "raise_base":
+            exc = KeyboardInterrupt("body interrupt %d" % self.attempt)
+        if exc is not None:
+            self.events.append(("exit", 0, "raise", exc))
+            raise exc
+        result = ("R", self.attempt, sorted((k, repr(v)) for k, v in loc.items()))
+        self.events.append(("exit", 0, "ret", result))
+        return result
+
+
+def gen_plain_signature(rng):
+    """Ordinary parameter names, no positional-only parameters (those mechanisms belong to the main part)."""
+    while True:
+        sig = gen_signature(rng)
+        if not sig["posonly"] and not (set(all_names(sig)) & set(SPECIAL)):
+            return sig
+
+
+def plain_wrapper(kind, times, j, truth):
+    """An ordinary functools.wraps decorator (retry on the body's error / pass-through timing) that reports to the harness."""
+    import functools
+
+    def decorator(f):
+        @functools.wraps(f)
+        def wrapper(*args, **kwargs):
+            truth.events.append(("enter", j, {"args": args, "kwargs": dict(kwargs)}))
+            try:
+                if kind == "retry":
+                    last = None
+                    for _ in range(times):
+                        try:
+                            r = f(*args, **kwargs)
+                            break
+                        except excs.UserError as e:
+                            last = e
+                    else:
+                        raise last
+                else:
+                    r = f(*args, **kwargs)
+            except BaseException as e:
+                truth.events.append(("exit", j, "raise", e))
+                raise
+            truth.events.append(("exit", j, "ret", r))
+            return r
+        return wrapper
+    return decorator
+
+
+def derive_expected(kinds, events):
+    """The messages the property demands, from what the harness's own layers saw: every log_call decoration directly above a
+    harness layer (contiguously) starts its action before each entry of that layer, outermost first, with that entry's binding,
+    and ends it after the matching exit, innermost first, with that exit's outcome."""
+    out = []
+    for ev in events:
+        run = []
+        k = ev[1] + 1
+        while k < len(kinds) and kinds[k] == "log":
+            run.append(k)
+            k += 1
+        if ev[0] == "enter":
+            for k in reversed(run):
+                out.append((k, "start", ev[2]))
+        else:
+            for k in run:
+                out.append((k, "end", ev[2], ev[3]))
+    return out
+
+
+def layers(seed, i, res, tape):
+    import copy
+    import unittest
+    from eliot import MemoryLogger, start_action
+    from eliot.testing import swap_logger, capture_logging
+    rng = random.Random("%s:C18:layers:%d" % (seed, i))
+    sig = gen_plain_signature(rng)
+    names = all_names(sig)
+    c = res["counters"]
+    nl = rng.choice([1, 2, 2, 3, 3, 4])
+    kinds = ["base"] + [rng.choice(["log", "log", "retry", "timing"]) for _ in range(nl)]
+    if "log" not in kinds:
+        kinds[rng.randint(1, nl)] = "log"
+    times = {j: rng.randint(1, 3) for j in range(len(kinds)) if kinds[j] == "retry"}
+    truth_u, truth_d = _Truth(), _Truth()
+    problems = []  # (clause, text)
+
+    def base(truth):
+        ns = {"__hook__": truth.hook, "__name__": "vf.generated18"}
+        exec('def target(%s):\n    "doc of target"\n    return __hook__(dict(locals()))\n' % render_params(sig), ns)
+        return ns["target"]
+    try:
+        und = base(truth_u)
+    except SyntaxError:
+        return
+    dec = base(truth_d)
+    layer_opts = {}
+    want_type = {}
+    for j in range(1, len(kinds)):
+        if kinds[j] != "log":
+            und = plain_wrapper(kinds[j], times.get(j), j, truth_u)(und)
+            dec = plain_wrapper(kinds[j], times.get(j), j, truth_d)(dec)
+            continue
+        # the parameters of the callable that is decorated, as Python binds them: the function's own below an unbroken run of
+        # log_call decorations, (*args, **kwargs) when a plain wrapper is in between
+        below = j - 1
+        while kinds[below] == "log":
+            below -= 1
+        params = names if below == 0 else ["args", "kwargs"]
+        opts = {}
+        if rng.random() < 0.5:
+            opts["action_type"] = "layer%d:type" % j
+        if rng.random() < 0.4 and params:
+            opts["include_args"] = rng.sample(params, rng.randint(0, len(params)))
+        if rng.random() < 0.3:
+            opts["include_result"] = False
+        layer_opts[j] = opts
+        want_type[j] = opts.get("action_type") or "%s.%s" % (dec.__module__, dec.__qualname__)
+        given = dec
+        try:
+            dec = log_call(**opts)(given) if opts else log_call(given)
+        except BaseException as e:
+            problems.append(("decorate", "log_call(%s) on layer %d of %s raised %r" % (opts, j - 1, kinds, e)))
+            dec = None
+            break
+        try:
+            if dec.__name__ != given.__name__ or dec.__doc__ != "doc of target" or str(inspect.signature(dec)) != str(inspect.signature(given)):
+                problems.append(("metadata", "name/doc/signature not kept by decoration %d of %s: %r %r %s" % (j, kinds, dec.__name__, dec.__doc__, inspect.signature(dec))))
+        except BaseException as e:
+            problems.append(("metadata", "inspecting decoration %d of %s raised %r" % (j, kinds, e)))
+    nlog = sum(1 for k in kinds if k == "log")
+    log_on_log = any(kinds[j] == "log" and kinds[j - 1] == "log" for j in range(2, len(kinds)))
+    log_on_wrapped_log = any(kinds[j] == "log" and kinds[j - 1] in ("retry", "timing") and "log" in kinds[1:j - 1] for j in range(3, len(kinds)))
+
+    def attempt(fn, a, kw, parent):
+        try:
+            if parent:
+                with start_action(action_type="c18:parent"):
+                    return ("ret", fn(*a, **kw))
+            return ("ret", fn(*a, **kw))
+        except BaseException as e:
+            return ("raise", e)
+
+    ncalls = 0
+    for _ in range(3 if dec is not None else 0):
+        valid = rng.random() < 0.85
+        args, kwargs = gen_args(rng, sig, valid)
+        script = rng.choice([["return"], ["return"], ["raise"], ["raise_base"], ["raise", "return"], ["raise", "raise", "return"],
+                             ["raise", "raise_base"]])
+        env = rng.choice(["default", "default", "memory", "sink", "capture"])
+        parent = rng.random() < 0.25
+        truth_u.reset(script)
+        truth_d.reset(script)
+        ou = attempt(und, copy.deepcopy(args), copy.deepcopy(kwargs), False)
+        before = len(tape.entries)
+        a2, kw2 = copy.deepcopy(args), copy.deepcopy(kwargs)
+        # ---- decorate happened above; now (maybe) replace the default logger; then call
+        if env == "default":
+            od = attempt(dec, a2, kw2, parent)
+            inforce = [e["m"] for e in tape.entries[before:] if e["k"] == "msg"]
+            stray = []
+        elif env in ("memory", "sink"):
+            logger = MemoryLogger() if env == "memory" else _ListLogger()
+            previous = swap_logger(logger)
+            try:
+                od = attempt(dec, a2, kw2, parent)
+            finally:
+                swap_logger(previous)
+            inforce = list(logger.messages)
+            stray = [e["m"] for e in tape.entries[before:] if e["k"] == "msg"]
+        else:
+            box = {}
+
+            class _Tests(unittest.TestCase):
+                @capture_logging(None)
+                def test_call(self, logger):
+                    box["logger"] = logger
+                    box["out"] = attempt(dec, a2, kw2, parent)
+            _Tests("test_call").run(unittest.TestResult())
+            if "out" not in box:
+                continue
+            od = box["out"]
+            inforce = list(box["logger"].messages)
+            stray = [e["m"] for e in tape.entries[before:] if e["k"] == "msg"]
+        ncalls += 1
+        if env != "default":
+            c["layers_calls_after_default_logger_replaced"] = c.get("layers_calls_after_default_logger_replaced", 0) + 1
+        drop = lambda ms: [m for m in ms if m.get("message_type") != "eliot:destination_failure" and m.get("action_type") != "c18:parent"]
+        msgs, stray = drop(inforce), drop(stray)
+        desc = "stack=%s options=%s target(%s) args=%r kwargs=%r body=%s logger=%s%s" % (
+            kinds, layer_opts, render_params(sig), args, kwargs, script, env, " inside start_action" if parent else "")
+        reached = any(e[0] == "enter" and e[1] == 0 for e in truth_d.events)
+        if reached and log_on_log:
+            c["layers_calls_through_log_call_on_log_call"] = c.get("layers_calls_through_log_call_on_log_call", 0) + 1
+        if reached and log_on_wrapped_log:
+            c["layers_calls_through_log_call_on_plain_wrapper_of_log_call"] = c.get("layers_calls_through_log_call_on_plain_wrapper_of_log_call", 0) + 1
+        # ---- transparency: the harness's own layers saw the same thing with and without the log_call decorations
+        skel = lambda t: [(e[0], e[1]) + ((e[2],) if e[0] == "exit" else ()) for e in t.events]
+        if skel(truth_u) != skel(truth_d):
+            problems.append(("result", "the function / plain wrappers ran %s without log_call and %s with it: %s" % (skel(truth_u), skel(truth_d), desc)))
+            continue
+        exits0 = [e for e in truth_d.events if e[0] == "exit" and e[1] == 0]
+        if ou[0] != od[0]:
+            problems.append(("acceptance", "undecorated stack -> %s (%r), decorated -> %s (%r): %s" % (ou[0], ou[1], od[0], od[1], desc)))
+            continue
+        if od[0] == "ret":
+            if not exits0 or od[1] is not exits0[-1][3] or od[1] != ou[1]:
+                problems.append(("result", "decorated stack returned %r, not the body's result object: %s" % (od[1], desc)))
+        elif exits0:
+            if od[1] is not exits0[-1][3]:
+                problems.append(("unexpected-raise", "decorated stack raised %r, the body raised %r: %s" % (od[1], exits0[-1][3], desc)))
+                continue
+        elif type(od[1]) is not type(ou[1]):
+            problems.append(("unexpected-raise", "decorated stack raised %r, undecorated %r: %s" % (od[1], ou[1], desc)))
+            continue
+        # ---- the logged actions, at the default logger in force when the call was made
+        expected = derive_expected(kinds, truth_d.events)
+        where = "the registered destinations" if env == "default" else "the default logger in force at call time"
+        if stray:
+            problems.append(("logger", "%d messages %r of the call reached the registered destinations although another default logger was in force "
+                             "when the call was made (that logger got %d messages): %s"
+                             % (len(stray), [(m.get("action_type"), m.get("action_status")) for m in stray][:8], len(msgs), desc)))
+            continue
+        summary = [(m.get("action_type"), m.get("action_status")) for m in msgs]
+        want_summary = [(want_type[x[0]], "started" if x[1] == "start" else {"ret": "succeeded", "raise": "failed"}[x[2]]) for x in expected]
+        if summary != want_summary:
+            problems.append(("actions", "every log_call decoration logs its own action, nested: expected %r at %s, got %r: %s" % (want_summary, where, summary, desc)))
+            continue
+        for m, x in zip(msgs, expected):
+            k = x[0]
+            opts = layer_opts[k]
+            got = {f: v for f, v in m.items() if f not in META}
+            if x[1] == "start":
+                want = dict(x[2])
+                if "include_args" in opts:
+                    want = {f: want[f] for f in opts["include_args"]}
+                if set(got) != set(want) or not all(same(got[f], want[f]) for f in want):
+                    problems.append(("startfield", "decoration %d start message fields %r, Python bound %r: %s" % (k, got, want, desc)))
+                    break
+            elif x[2] == "ret":
+                if opts.get("include_result", True):
+                    if set(got) != {"result"} or not same(got["result"], x[3]):
+                        problems.append(("resultfield", "decoration %d end message fields %r, returned %r: %s" % (k, got, x[3], desc)))
+                        break
+                elif got:
+                    problems.append(("resultfield", "decoration %d has include_result=False, end message fields %r: %s" % (k, got, desc)))
+                    break
+            elif m.get("exception") != excs.qualname(type(x[3])):
+                problems.append(("actions", "decoration %d end message exception %r for %r: %s" % (k, m.get("exception"), x[3], desc)))
+                break
+    res["evals"] += ncalls
+    c["layers_calls"] = c.get("layers_calls", 0) + ncalls
+    d = c.setdefault("layers_stack_depths", {})
+    d["%d log_call of %d" % (nlog, nl)] = d.get("%d log_call of %d" % (nlog, nl), 0) + 1
+    if ncalls:
+        res["nontrivial"].append(h(["layers", kinds, sorted((k, sorted(v.items())) for k, v in layer_opts.items()), render_params(sig)]))
+    seen = set()
+    for clause, text in problems:
+        if clause in seen:
+            continue
+        seen.add(clause)
+        res["violations"].append({"msg": "[layers:%s] %s" % (clause, text), "mech": None,
+                                  "detail": {"case": i, "part": "layers", "signature": render_params(sig), "stack": kinds,
+                                             "options": {str(k): v for k, v in layer_opts.items()}, "clause": clause}})
+
 
 def run_case(spec):
     res = {"evals": 0, "nontrivial": [], "counters": {}, "violations": [], "sample": None, "sets": {"special_names_used": []}}
@@ -543,6 +848,8 @@ def run_case(spec):
     try:
         for i in range(spec["lo"], spec["hi"]):
             one(spec["seed"], i, res, tape)
+            if i % 40 == 0:
+                layers(spec["seed"], i, res, tape)
     finally:
         remove_destination(rec)
         remove_destination(filedest)
@@ -552,4 +859,8 @@ def run_case(spec):
 def finalize(agg, tier):
     if agg["counters"].get("calls_compared", 0) < 2000:
         return "fewer than 2000 calls compared"
+    for k in ("layers_calls_through_log_call_on_log_call", "layers_calls_through_log_call_on_plain_wrapper_of_log_call",
+              "layers_calls_after_default_logger_replaced"):
+        if not agg["counters"].get(k, 0):
+            return "part 'layers' never reached: " + k
     return None
